@@ -169,6 +169,19 @@ def part_generated(args):
             run("option", hdr.SOMEIPSDOption.parse, b4, f"IPv4 endpoint option protocol {proto} reserved {res:#x}")
         b6 = refcodec.tobe(21, 2) + b"\x26\x00" + bytes(range(16)) + bytes([0, proto]) + refcodec.tobe(1, 2)
         run("option", hdr.SOMEIPSDOption.parse, b6, f"IPv6 SD endpoint option protocol {proto}")
+    # addresses with a special form or meaning, in all three kinds of IP option: an address is 4 / 16 opaque bytes
+    import ipaddress
+    v6s = ["::", "::1", "::ffff:192.0.2.1", "::ffff:0.0.0.0", "::192.0.2.1", "64:ff9b::c000:201", "2002:c000:201::1", "fe80::1",
+           "ff02::1", "ff0e::4:c", "2001:db8::", "ffff:ffff:ffff:ffff:ffff:ffff:ffff:ffff", "0:0:0:0:0:ffff:ffff:ffff", "::ffff:0:1"]
+    v4s = ["0.0.0.0", "127.0.0.1", "224.0.0.1", "255.255.255.255", "169.254.0.1", "192.0.2.1"]
+    for typ in (0x06, 0x16, 0x26):
+        for a6 in v6s:
+            body = b"\x00" + ipaddress.IPv6Address(a6).packed + bytes([0, 17]) + refcodec.tobe(30490, 2)
+            run("option", hdr.SOMEIPSDOption.parse, refcodec.tobe(21, 2) + bytes([typ]) + body, f"IPv6 option type {typ:#x} address {a6}")
+    for typ in (0x04, 0x14, 0x24):
+        for a4 in v4s:
+            body = b"\x00" + ipaddress.IPv4Address(a4).packed + bytes([0, 6]) + refcodec.tobe(30490, 2)
+            run("option", hdr.SOMEIPSDOption.parse, refcodec.tobe(9, 2) + bytes([typ]) + body, f"IPv4 option type {typ:#x} address {a4}")
     # configuration options: garbage after the terminator, odd strings
     for items, tail in itertools.product(
             ((), (b"k",), (b"k=v",), (b"=v",), (b"k=",), (b"a=b=c", b"x"), (b"\x01\x02",), (b"=",), (b"==",),
